@@ -8,6 +8,10 @@ def chk(id, cat, text, note, tech, engine, ref):
         evidence_file=f"/verif/evidence/{id}.json", replay_cmd_template=f"bin/vf check {id} --replay {{path}}", engine=engine,
         level_claimed=dict(category=cat, text=text, design_ref=ref), level_note=note, technique=tech)
 
+chk("C01","fault_enumeration",
+    "The whole server runs over the in-memory adapter; concurrent publishers on grp/chn/p2p/sys topics (several users, several sessions, root on behalf of a user, store-call delays, idle unload/reload and p2p unsubscribe/resubscribe between bursts) produce client-boundary histories that are checked for unique gapless acks, ack = data = history = desc numbering, per-session order, consecutive MessageSave numbers and linearizability (porcupine) against an append-only log. Every store call of a publish is made to fail in turn and the process is really SIGKILLed before and after every store call of a publish, restarted from the durable snapshot and queried. Faults and crash points are enumerated completely for the publish path; schedules are sampled.",
+    "vfmem (harness/vfmem) stands in for the SQL adapters and is trusted to mirror their contract; SQL text is not exercised; schedules are those the Go scheduler plus injected store delays produce.",
+    "client-boundary history recording + porcupine linearizability + store fault/crash enumeration","sim","DESIGN.md 3/C01")
 chk("C05","exploration",
     "Runtime oracle over the real AccessMode code: every one of the 256x256 permission pairs is pushed through Delta/ApplyDelta/ApplyMutation and every set through text/JSON/SQL round trips (finite core enumerated completely); all short strings over the mode alphabet plus junk are compared with an independent reference for the stated laws (unknown letters rejected and target unchanged, empty = no change, N = none). The on-the-wire intersection law and the notification-replay clause are monitored in the C07 engine runs and reported there.",
     "Reference parser in harness/types/c05.go is trusted; strings longer than 5 are sampled, not enumerated; proxy replay through updateAcsFromPresMsg is exercised by the sim engine (C07), not here.",
